@@ -12,7 +12,6 @@
 //verif:bound <= 3 connections per peer, stream counts 0..2, one waiter, one NewStream call (retry loop unwound 3 times)
 //verif:stub transport.CapableConn / Transport / resource manager / peerstore stubs; dialPeer, Conn.openAndAddStream, Conn.start and the connection-events emitter hooked; timers fire only when every goroutine is blocked (time passes when nothing else can happen)
 //verif:outside waiter wake-up races under real preemption, several concurrent waiters, hole-punch protocol exchange, relay address filtering in addrsForDial
-//verif:nowitness
 package swarm
 
 import (
